@@ -32,7 +32,8 @@ use omics::coordinate::Strand;
 enum Ev {
     Chunk(Vec<u8>),
     Intr,
-    Fail,
+    /// a hard failure of the given kind (every kind but `Interrupted` is final for `read_until`)
+    Fail(io::ErrorKind),
 }
 
 struct Script {
@@ -78,7 +79,7 @@ impl BufRead for Script {
                     return Ok(&self.cur[..]);
                 }
                 Some(Ev::Intr) => return Err(io::Error::new(io::ErrorKind::Interrupted, "scripted interrupt")),
-                Some(Ev::Fail) => return Err(io::Error::new(io::ErrorKind::Other, "scripted failure")),
+                Some(Ev::Fail(kind)) => return Err(io::Error::new(kind, "scripted failure")),
             }
         }
     }
@@ -131,8 +132,17 @@ fn src_of(s: &str) -> Option<Vec<Ev>> {
         .map(|t| {
             if t == "i" {
                 Some(Ev::Intr)
-            } else if t == "f" {
-                Some(Ev::Fail)
+            } else if let Some(k) = t.strip_prefix('f') {
+                Some(Ev::Fail(match k {
+                    "" | "o" => io::ErrorKind::Other,
+                    "u" => io::ErrorKind::UnexpectedEof,
+                    "w" => io::ErrorKind::WouldBlock,
+                    "t" => io::ErrorKind::TimedOut,
+                    "b" => io::ErrorKind::BrokenPipe,
+                    "r" => io::ErrorKind::ConnectionReset,
+                    "p" => io::ErrorKind::PermissionDenied,
+                    _ => return None,
+                }))
             } else {
                 unhex_raw(t.strip_prefix('c')?).map(Ev::Chunk)
             }
